@@ -63,6 +63,27 @@ def disagrees (fx : Fixes) (w h : Nat) (ops : List EOp) : Bool :=
   | .ok e, some t => !t.accepts (abs e)
   | _, _ => false
 
+/-- as `specRun`, over the extended vocabulary `tokOfX` -/
+def specRunX (t : Term.T) : List EOp → Option Term.T
+  | [] => some t
+  | op :: rest =>
+    match tokOfX op with
+    | none => none
+    | some tok =>
+      match Term.step t tok with
+      | .accept (t' :: _) => specRunX t' rest
+      | _ => none
+
+def agreesX (fx : Fixes) (w h : Nat) (ops : List EOp) : Bool :=
+  match play fx w h ops, specRunX (Term.T.init h w) ops with
+  | .ok e, some t => t.accepts (abs e)
+  | _, _ => false
+
+def disagreesX (fx : Fixes) (w h : Nat) (ops : List EOp) : Bool :=
+  match play fx w h ops, specRunX (Term.T.init h w) ops with
+  | .ok e, some t => !t.accepts (abs e)
+  | _, _ => false
+
 /-! shorthand for writing operations -/
 def pr (g : List Nat) (w : Nat := 1) : EOp := .print g w
 def csi1 (final : Nat) (ps : List Int := []) : EOp := .csi [final] (ps.map fun p => (p, []))
